@@ -232,7 +232,8 @@ def classes(draw, lang, eff, names, depth=0):
             cls["branch"] = draw(st.sampled_from(["if", "else", "elif", "try", "except", "try-else", "finally", "case", "with", "for-else"]))
     if lang in ("ts", "js"):
         cls["export"] = draw(st.booleans())
-    if lang == "ts":
+        cls["form"] = draw(st.sampled_from(["decl", "decl", "decl", "expr", "returned"]))
+    if lang == "ts" and cls["form"] == "decl":
         cls["abstract"] = draw(st.integers(0, 7)) == 0
         cls["generic"] = draw(st.integers(0, 5)) == 0
     if lang == "rs":
